@@ -1,6 +1,6 @@
 """Property -> rules table."""
 
-from .rules import inplace, maps, exponent, decomp, threads, evo, tebd, record, iso, optflow, registries
+from .rules import inplace, maps, exponent, decomp, threads, evo, tebd, record, iso, optflow, registries, dmrg
 import functools
 
 COMMON_ASSUMPTIONS = [
@@ -33,7 +33,58 @@ def _c12_family(f):
     )) or (f.module.name == "quimb.tensor.tensor_core" and n.startswith(("contract_compressed", "contract_around", "compress_", "_contract_compressed", "_contract_around", "insert_compressor")))
 
 
+def _c13_family(f):
+    n = f.name.lstrip("_")
+    return n.startswith(("compute_local_expectation", "local_expectation", "partial_trace", "normalize", "compute_norm", "norm"))
+
+
 REGISTRY = {
+    "C13": {
+        "rules": [
+            P(optflow.rule_option_delivery, opts=("normalized",), modules=("quimb.tensor",), rule="opt-deliver[normalized]", floor=15,
+              description="from every function that accepts `normalized`, each call whose resolved callee (all candidates) accepts "
+                          "`normalized` receives a value derived from the caller's own (or an explicit literal): an omitted "
+                          "`normalized` silently reverts to the callee's default normalisation"),
+            P(optflow.rule_option_delivery, opts=("rehearse",), modules=("quimb.tensor",), rule="opt-deliver[rehearse]", floor=8,
+              description="same for `rehearse` (a dropped rehearse flag performs the contraction instead of returning the plan)"),
+            P(optflow.rule_option_delivery, opts=("max_bond", "cutoff"), modules=("quimb.tensor.tnag.core",), rule="cap-delivery[local expectation]", floor=7),
+            P(registries.rule_mode_total, specs=[
+                ("quimb.tensor.tn1d.core", "MatrixProductState.compute_local_expectation", "method"),
+                ("quimb.tensor.tnag.core", "TensorNetworkGenVector.partial_trace_exact", "get"),
+                ("quimb.tensor.tnag.core", "TensorNetworkGenVector.partial_trace", "method"),
+                ("quimb.tensor.tnag.core", "_combine_expansion_expectations", "combine"),
+            ]),
+            P(inplace.rule_inplace_effect, family=_c13_family, rule="inplace-effect[expectation routes]", floor=5, controls=0),
+            P(record.rule_record, only=lambda f: f.name in (
+                "local_expectation_canonical", "compute_local_expectation_canonical", "compute_local_expectation",
+                "partial_trace_to_dense_canonical", "magnetization", "schmidt_values", "entropy", "schmidt_gap",
+                "singular_values", "bipartite_schmidt_state"), min_handoffs=6),
+        ],
+        "explanation": (
+            "static: decides the delivery of `normalized`, `rehearse` and the truncation options along every route to a "
+            "local expectation / reduced state, the totality of the route dispatchers, the non-mutation discipline of the "
+            "routes that take `inplace`, and (for the 1D canonical routes) the record rules of C08. Does NOT decide agreement "
+            "with the dense answer, Hermiticity, site-ordering or operator-transposition conventions (value-level)."
+        ),
+        "assumptions": COMMON_ASSUMPTIONS,
+    },
+    "C10": {
+        "rules": [
+            dmrg.rule_lockstep, dmrg.rule_mirror_blocks,
+            P(optflow.rule_option_delivery, opts=("bra",), modules=("quimb.tensor.tn1d.core", "quimb.tensor.tensor_core", "quimb.tensor.tn2d.core"),
+              rule="bra-forwarding", floor=10,
+              description="every function with a `bra` parameter forwards bra=bra to each callee that accepts `bra` (a dropped bra "
+                          "leaves the conjugate state un-updated while the ket moves)"),
+            P(registries.rule_mode_total, specs=[("quimb.tensor.tn1d.dmrg", "MovingEnvironment.init_segment", "begin")]),
+        ],
+        "explanation": (
+            "static: decides that DMRG updates ket and bra in lock-step with conjugated data and lower indices, that every "
+            "centre-moving / bond-expanding call on the ket passes the bra, that functions taking `bra` forward or mirror it, "
+            "Does NOT decide the variational bound, monotonicity or "
+            "agreement with exact diagonalisation."
+        ),
+        "assumptions": COMMON_ASSUMPTIONS,
+    },
     "C09": {
         "rules": [
             registries.rule_compress_registry_1d,
@@ -188,6 +239,8 @@ REGISTRY = {
 
 
 TECHNIQUE = {
+    "C10": "static analysis: ket/bra lock-step and conjugation pairing rules over the DMRG classes, bra forwarding (OPTFLOW) and mirror-block rules",
+    "C13": "static analysis: option-delivery (OPTFLOW) for normalized / rehearse / truncation options, mode totality, effect analysis, canonical-record typestate rules",
     "C09": "static analysis: registry/dispatcher interface and use-or-reject rules, option-delivery (OPTFLOW) over the 1D call edges, effect analysis of compressors and MPS/MPO arithmetic",
     "C12": "static analysis: option-delivery (OPTFLOW) over boundary / compressed-contraction call edges, registry use-or-reject, mode totality, effect analysis",
     "C04": "static analysis: typestate rules for the isometry flag (invalidate / claim provenance), exponent-compensation pairing rules, membership rule for strip_exponent, effect analysis of the rewrite families",
